@@ -134,7 +134,10 @@ class Case:
         self.pedantic = pedantic      # '' | '-p' | '--pedantic'
         self.stdin = stdin if isinstance(stdin, bytes) else stdin.encode('latin-1')
         self.files = dict(files or {})   # name -> bytes
-        self.limits = dict(DEFAULT_LIMITS); self.limits.update(limits or {})
+        self.limits = dict(DEFAULT_LIMITS)
+        if mode == 'repl':
+            self.limits['steps'] = 30000
+        self.limits.update(limits or {})
         self.name = name
         self.meta = meta or {}
     def key(self):
